@@ -52,7 +52,20 @@ def evalC11Restart (ins outs : List String) : Oracle.Verdict :=
   | some lc, _, _, _, _ => .prop "c11_total" s!"stop/start failed: {lc}"
   | _, _, _, _, _ => .bad "C11 restart"
 
+/-- one Subscriber, several steps: a refused second registration changes nothing; a rejected message leaves no trace in the next -/
+def evalC11Sequence (ins outs : List String) : Oracle.Verdict :=
+  match kv? ins "sub", kv? outs "first", kv? outs "second", kv? outs "verdict", kv? outs "delivered" with
+  | some "refused", some e1, some e2, some v, _ =>
+    if e1 != "ok" || e2 == "ok" then .prop "c11_total" s!"SetVerifier: first={e1} second={e2} (the second registration must be refused)" else
+    if v != "reject" then .prop "c11_reject_iff" s!"the registered verifier returns a hard failure, verdict={v} (a refused registration took over)" else .ok "sequence-refused"
+  | some "afterreject", some v1, _, some v2, some d =>
+    if v1 != "reject" then .prop "c11_reject_iff" s!"first message: {v1}" else
+    if v2 != "accept" then .prop "c11_accept_iff" s!"a valid header after a rejected one: {v2}" else
+    if d != "same" then .prop "c11_delivered_value" s!"the header delivered after a rejected one is not the header that was sent ({d})" else .ok "sequence-afterreject"
+  | _, _, _, _, _ => .bad "C11 sequence"
+
 def evalC11 (ins outs : List String) : Oracle.Verdict :=
+  if kv? ins "kind" == some "sequence" then evalC11Sequence ins outs else
   if kv? ins "kind" == some "gossip" then evalC11Gossip outs else
   if kv? ins "kind" == some "restart" then evalC11Restart ins outs else
   match (kv? ins "payload").bind extractOf?, (kv? ins "outcome").bind outcomeOf?, kv? outs "verdict", kv? outs "delivered" with
